@@ -189,3 +189,56 @@ create_standard = Contract(
     properties=("C03",), min_obligations=1, no_replay=True,
 )
 CONTRACTS += [create_standard, gate_placement, cell_name]
+
+# =================================================================================================
+# MemoryLowerer.lower_mem_decl: every lowering of a declaration (one per call of the enclosing function / per loop
+# iteration) gets a memory id of its own: the per-name instance counter grows by one and the id is derived
+# injectively from (name, counter) — so no two instances share a cell.
+# =================================================================================================
+MADE = {}
+
+
+def _mem_create_effect(ex, a):
+    MADE["id"] = a.memory_id
+    return None
+
+
+mem_create = Contract(qualname="dsl_compiler/src/ir/builder.py::IRBuilder.memory_create",
+                      params={"self": _OPQ3, "memory_id": _OPQ3, "signal_type": _OPQ3, "source_ast": _OPQ3, "memory_type": _OPQ3},
+                      defaults={"source_ast": None, "memory_type": None}, effect=_mem_create_effect, verify=False, note="creates the cell under the given id")
+
+
+def _decl_post(a, res):
+    cnt_old, cnt_new = a.old.self._declared_instances, a.self._declared_instances
+    base = z3.Concat(z3.StringVal("mem_"), a.stmt.name)
+    n_old = z3.If(z3.Select(cnt_old.present, base), z3.Select(cnt_old.vals, base), 0)
+    mid = MADE.get("id")
+    if mid is None:
+        return False
+    k = z3.String("other_key")
+    frame = z3.ForAll([k], Implies(k != base, And(z3.Select(cnt_new.present, k) == z3.Select(cnt_old.present, k),
+                                                   z3.Select(cnt_new.vals, k) == z3.Select(cnt_old.vals, k))))
+    want_id = z3.If(n_old == 0, base, z3.Concat(base, z3.StringVal("_"), z3.IntToStr(n_old + 1)))
+    from pyvc.engine import lift as _lift
+    mid_t = _lift(mid)
+    refs = a.self.parent.memory_refs
+    return And(z3.Select(cnt_new.present, base), z3.Select(cnt_new.vals, base) == n_old + 1, frame, mid_t == want_id,
+               z3.Select(refs.present, a.stmt.name), z3.Select(refs.vals, a.stmt.name) == mid_t)
+
+
+mem_decl = Contract(
+    qualname=ML + "lower_mem_decl",
+    params={"self": ty.TObj("MemoryLowerer", only=("MemoryLowerer",)), "stmt": ty.TObj("MemDecl", only=("MemDecl",))},
+    requires=[("(reset)", lambda a: MADE.clear() or True), ("counters are natural numbers", lambda a: z3.ForAll([z3.String("k0")], z3.Select(a.self._declared_instances.vals, z3.String("k0")) >= 1))],
+    ensures=[("the instance counter of this name grows by one, other counters are untouched, the id is name / name_<n>", _decl_post)],
+    uses={"IRBuilder.memory_create": mem_create, "MemoryLowerer._error": "skip", "fn:get_signal_type_name": "skip", "opaque.lookup": "skip",
+          "opaque.ensure_signal_registered": "skip", "opaque.get": "skip", "ASTLowerer.ensure_signal_registered": "skip"},
+    dynamic_types={"self": {"_declared_instances": ty.TDict(ty.Str, ty.Int), "parent": ty.TObj("ASTLowerer", only=("ASTLowerer",)),
+                            "ir_builder": ty.TObj("IRBuilder", only=("IRBuilder",)), "semantic": ty.TObj("SemanticAnalyzer", only=("SemanticAnalyzer",))},
+                   "self.semantic": {"memory_types": ty.TObjMap(ty.Str, ty.TObj("MemoryInfo", only=("MemoryInfo",), ftypes=(("signal_type", ty.TOpt(ty.Str)),))),
+                                     "symbol_table": ty.TOpaque("symtab")},
+                   "self.parent": {"memory_refs": ty.TDict(ty.Str, ty.Str), "memory_types": ty.TDict(ty.Str, ty.Str)},
+                   "stmt": {"name": ty.Str}},
+    properties=("C03", "C15", "C16"), min_obligations=1, no_replay=True,
+)
+CONTRACTS += [mem_decl, mem_create]
